@@ -221,6 +221,21 @@ M("C01", "refresh-keeps-first-state-only", DEV, "        for response in respons
 M("C01", "hex-key-lowercased-twice", LAN, "                return bytes.fromhex(x) if isinstance(x, str) else x", "                return bytes.fromhex(x)[::-1] if isinstance(x, str) else x")
 M("C01", "toggle-display-sends-query", CMD, "            0x00, 0xFF, 0x02,\n            0x00, 0x02, 0x00, 0x00,", "            0x00, 0xFF, 0x03,\n            0x00, 0x02, 0x00, 0x00,")
 
+# ---- C16
+M("C16", "updated-properties-not-cleared", DEV, "        # Reset updated properties set\n        self._updated_properties.clear()", "        # Reset updated properties set\n        pass")
+M("C16", "cleared-before-send", DEV, "        # Get current state of updated properties\n        props = {", "        # Get current state of updated properties\n        pending, self._updated_properties = self._updated_properties, set()\n        if PropertyId.IECO in pending and len(pending) > 1:\n            return\n        self._updated_properties = pending\n        props = {")
+M("C16", "breeze-away-encoding", CMD, "return bytes([2 if args[0] else 1])", "return bytes([1 if args[0] else 0])")
+M("C16", "legacy-setter-uses-control", DEV, "        self._updated_properties.add(\n            PropertyId.BREEZE_CONTROL if PropertyId.BREEZE_CONTROL in self._supported_properties\n            else PropertyId.BREEZE_AWAY)", "        self._updated_properties.add(PropertyId.BREEZE_CONTROL)")
+M("C16", "ieco-value-wrong-byte", CMD, "return bytes([0, 1, args[0]]) + bytes(10)", "return bytes([0, args[0], 1]) + bytes(10)")
+M("C16", "rate-select-id-swapped", DEV, "        PropertyId.RATE_SELECT: lambda s: s._rate_select,\n        PropertyId.SWING_LR_ANGLE: lambda s: s._horizontal_swing_angle,", "        PropertyId.RATE_SELECT: lambda s: s._horizontal_swing_angle,\n        PropertyId.SWING_LR_ANGLE: lambda s: s._rate_select,")
+M("C16", "buzzer-omitted", DEV, "        # Always add buzzer property\n        properties[PropertyId.BUZZER] = self._beep_on\n", "")
+M("C16", "legacy-breeze-overwrite-regression", DEV, "                    if value:\n                        self._breeze_mode = AirConditioner.BreezeMode.BREEZELESS\n                    elif self._breeze_mode == AirConditioner.BreezeMode.BREEZELESS:\n                        # Breezeless off must not clear an active breeze away\n                        self._breeze_mode = AirConditioner.BreezeMode.OFF", "                    self._breeze_mode = (AirConditioner.BreezeMode.BREEZELESS if value\n                                         else AirConditioner.BreezeMode.OFF)")
+M("C16", "ieco-decode-number", CMD, "            return bool(data[1])", "            return bool(data[0])")
+M("C16", "ud-lr-setters-swapped", DEV, "        self._vertical_swing_angle = angle\n        self._updated_properties.add(PropertyId.SWING_UD_ANGLE)", "        self._vertical_swing_angle = angle\n        self._updated_properties.add(PropertyId.SWING_LR_ANGLE)")
+M("C16", "breezeless-setter-forgets-id", DEV, "        self._updated_properties.add(\n            PropertyId.BREEZE_CONTROL if PropertyId.BREEZE_CONTROL in self._supported_properties\n            else PropertyId.BREEZELESS)", "        if enable:\n            self._updated_properties.add(\n                PropertyId.BREEZE_CONTROL if PropertyId.BREEZE_CONTROL in self._supported_properties\n                else PropertyId.BREEZELESS)")
+M("C16", "all-supported-props-sent", DEV, "            for k in self._updated_properties & self._PROPERTY_MAP.keys()", "            for k in (self._updated_properties | self._supported_properties) & self._PROPERTY_MAP.keys()")
+M("C16", "breeze-control-off-as-zero", DEV, "        PropertyId.BREEZE_CONTROL: lambda s: s._breeze_mode,", "        PropertyId.BREEZE_CONTROL: lambda s: s._breeze_mode if s._breeze_mode != AirConditioner.BreezeMode.OFF else 0,")
+
 
 def apply_mutant(src_root: str, file: str, old: str, new: str) -> None:
     p = os.path.join(src_root, file)
